@@ -679,6 +679,43 @@ func (g *gen) point(t *rapid.T, ns string) hist.PointJ {
 	return hist.PointJ{Mst: rapid.SampledFrom(allMsts[ns]).Draw(t, "mst"), Tags: rapid.SampledFrom(tagSets).Draw(t, "tags"), T: g.timeIdx(t), Fields: g.fields(t)}
 }
 
+// noOverwrite moves every point that would hit an existing (series,time) - in the model or earlier in the batch -
+// to the next free second of its shard group, or leaves it out. (Overwrites are C02's subject; the aggregate
+// push-down counts a row overwritten across memtable and files twice, which is not a matter of drops.)
+func noOverwrite(n *nsState, ps []hist.PointJ) []hist.PointJ {
+	used := map[string]bool{}
+	var out []hist.PointJ
+	for _, p := range ps {
+		key := model.SeriesKeyOf(p.Mst, p.Tags)
+		taken := func(ti int) bool {
+			if used[fmt.Sprintf("%s|%d", key, ti)] {
+				return true
+			}
+			sd := n.St.Series[key]
+			return sd != nil && sd.Rows[hist.TS(ti)] != nil
+		}
+		lo, hi := 0, 63
+		if p.T >= 64 {
+			lo, hi = 64, 79
+		}
+		ti, ok := p.T, false
+		for k := 0; k <= hi-lo; k++ {
+			c := lo + (p.T-lo+k)%(hi-lo+1)
+			if !taken(c) {
+				ti, ok = c, true
+				break
+			}
+		}
+		if !ok {
+			continue
+		}
+		p.T = ti
+		used[fmt.Sprintf("%s|%d", key, ti)] = true
+		out = append(out, p)
+	}
+	return out
+}
+
 var hostVals = []string{"a", "a", "b", "c", "z"}
 var dcVals = []string{"x", "y", "", "q"}
 
@@ -868,7 +905,7 @@ func runHistory(t *rapid.T, c *ev.Case) {
 		for i := range ps {
 			ps[i] = g.point(t, ns)
 		}
-		if ps = thaw(ns, ps); len(ps) > 0 {
+		if ps = noOverwrite(s.w.ns[ns], thaw(ns, ps)); len(ps) > 0 {
 			s.exec(Op{Kind: "write", NS: ns, Points: ps})
 		}
 	}
@@ -891,7 +928,7 @@ func runHistory(t *rapid.T, c *ev.Case) {
 		for j := range ps {
 			ps[j] = hist.PointJ{Mst: parts[0], Tags: tags, T: g.timeIdx(t), Fields: g.fields(t)}
 		}
-		if ps = thaw(ns, ps); len(ps) == 0 {
+		if ps = noOverwrite(s.w.ns[ns], thaw(ns, ps)); len(ps) == 0 {
 			return
 		}
 		c.Class("write-to-dropped-series-or-measurement")
